@@ -207,3 +207,154 @@ Qed.
 Lemma physical_equals_pullback_l Ss f grid geo :
   tprod_loop Ss (grid_eval_transformed f grid geo) = tprod_loop Ss (grid_eval (compose f geo) grid).
 Proof. reflexivity. Qed.
+
+(* ------------------------------------------------------------------ *)
+(* discrete L2 projection (any dimension / geometry / hierarchical basis: N basis functions
+   sampled at Q quadrature points, weights w = quadrature weight times |det J|) *)
+
+Lemma sumn_opp n f : sumn n (fun i => - f i) = - sumn n f.
+Proof. induction n as [|n IH]; [rewrite !sumn_0; ring | rewrite !sumn_S, IH; ring]. Qed.
+
+Lemma sumn_sub n f g : sumn n (fun i => f i - g i) = sumn n f - sumn n g.
+Proof. induction n as [|n IH]; [rewrite !sumn_0; ring | rewrite !sumn_S, IH; ring]. Qed.
+
+Section L2proofs.
+  Variables (N Q : nat) (Cq : nat -> nat -> Qc) (w : nat -> Qc).
+  Notation M := (massq Q Cq w).
+  Notation load := (loadq Q Cq w).
+  Notation s := (spl N Cq).
+
+  (* the load vector of a function of the space is the mass matrix times its coefficients *)
+  Lemma load_of_spline c i : load (s c) i = mv N M c i.
+  Proof.
+    unfold loadq, mv, massq, spl.
+    rewrite (sumn_ext Q _ (fun q => sumn N (fun j => Cq q i * w q * Cq q j * c j))).
+    - rewrite sumn_swap. apply sumn_ext. intros j _.
+      transitivity (c j * sumn Q (fun q => Cq q i * w q * Cq q j)); [|ring].
+      rewrite <- sumn_scal. apply sumn_ext. intros q _. ring.
+    - intros q _. rewrite <- sumn_scal. apply sumn_ext. intros j _. ring.
+  Qed.
+
+  Lemma mv_sub x y i : mv N M (fun j => x j - y j) i = mv N M x i - mv N M y i.
+  Proof. unfold mv. rewrite <- sumn_sub. apply sumn_ext. intros j _. ring. Qed.
+
+  (* residual of the projection is orthogonal to every basis function *)
+  Lemma l2_residual_orthogonal_l f x :
+    (forall i, (i < N)%nat -> mv N M x i = load f i) ->
+    forall i, (i < N)%nat -> sumn Q (fun q => Cq q i * w q * (f q - s x q)) = 0.
+  Proof.
+    intros H i Hi.
+    rewrite (sumn_ext Q _ (fun q => Cq q i * w q * f q - Cq q i * w q * s x q)) by (intros; ring).
+    rewrite sumn_sub. fold (load f i). fold (load (s x) i).
+    rewrite load_of_spline, H by assumption. ring.
+  Qed.
+
+  (* the projection reproduces functions of the space when the mass matrix is injective *)
+  Lemma l2_reproduces_l c x :
+    (forall y, (forall i, (i < N)%nat -> mv N M y i = 0) -> forall i, (i < N)%nat -> y i = 0) ->
+    (forall i, (i < N)%nat -> mv N M x i = load (s c) i) ->
+    forall i, (i < N)%nat -> x i = c i.
+  Proof.
+    intros Hinj H i Hi.
+    assert (Hz : x i - c i = 0).
+    { apply (Hinj (fun j => x j - c j)); [|exact Hi].
+      intros k Hk. rewrite mv_sub, H, load_of_spline by assumption. ring. }
+    rewrite <- (Qcplus_0_r (c i)), <- Hz. ring.
+  Qed.
+
+  (* x^T M x = sum_q w_q (spline value at q)^2 *)
+  Lemma energy x : sumn N (fun i => x i * mv N M x i) = sumn Q (fun q => w q * (s x q * s x q)).
+  Proof.
+    transitivity (sumn N (fun i => sumn Q (fun q => x i * Cq q i * w q * s x q))).
+    - apply sumn_ext. intros i _. unfold mv, massq.
+      rewrite <- sumn_scal.
+      transitivity (sumn N (fun j => sumn Q (fun q => x i * (Cq q i * w q * Cq q j) * x j))).
+      + apply sumn_ext. intros j _.
+        transitivity (x i * x j * sumn Q (fun q => Cq q i * w q * Cq q j)); [ring|].
+        rewrite <- sumn_scal. apply sumn_ext. intros q _. ring.
+      + rewrite sumn_swap. apply sumn_ext. intros q _. unfold spl.
+        rewrite <- sumn_scal. apply sumn_ext. intros j _. ring.
+    - rewrite sumn_swap. apply sumn_ext. intros q _.
+      transitivity ((w q * s x q) * sumn N (fun i => Cq q i * x i)); [|unfold spl; ring].
+      rewrite <- sumn_scal. apply sumn_ext. intros i _. ring.
+  Qed.
+
+  Lemma sq_nonneg (a : Qc) : 0 <= a * a.
+  Proof.
+    destruct (Qclt_le_dec a 0) as [L|L].
+    - replace (a * a) with ((- a) * (- a)) by ring.
+      assert (0 <= - a) by (apply Qclt_le_weak in L; apply Qcopp_le_compat in L;
+                            replace (- 0) with 0 in L by ring; exact L).
+      replace 0 with (0 * - a) by ring. apply Qcmult_le_compat_r; assumption.
+    - replace 0 with (0 * a) by ring. apply Qcmult_le_compat_r; assumption.
+  Qed.
+
+  Lemma sumn_nonneg n f : (forall i, (i < n)%nat -> 0 <= f i) -> 0 <= sumn n f.
+  Proof.
+    induction n as [|n IH]; intros H; [rewrite sumn_0; apply Qcle_refl|].
+    rewrite sumn_S. replace 0 with (0 + 0) by ring.
+    apply Qcplus_le_compat; [apply IH; intros; apply H; lia | apply H; lia].
+  Qed.
+
+  Lemma sumn_nonneg_zero n f :
+    (forall i, (i < n)%nat -> 0 <= f i) -> sumn n f = 0 -> forall i, (i < n)%nat -> f i = 0.
+  Proof.
+    induction n as [|n IH]; intros Hp Hs i Hi; [lia|].
+    rewrite sumn_S in Hs.
+    assert (H1 : 0 <= sumn n f) by (apply sumn_nonneg; intros; apply Hp; lia).
+    assert (H2 : 0 <= f n) by (apply Hp; lia).
+    assert (Hn : f n = 0).
+    { apply Qcle_antisym; [|exact H2].
+      assert (H3 : 0 + f n <= sumn n f + f n)
+        by (apply Qcplus_le_compat; [exact H1 | apply Qcle_refl]).
+      rewrite Hs, Qcplus_0_l in H3. exact H3. }
+    destruct (Nat.eq_dec i n) as [->|Hne]; [exact Hn|].
+    apply IH; [intros; apply Hp; lia | rewrite Hn in Hs; rewrite <- Hs; ring | lia].
+  Qed.
+
+  (* positive weights and a basis that is unisolvent on the quadrature points give an injective
+     (symmetric positive definite) mass matrix: the solver's contract then determines x *)
+  Lemma mass_injective_l :
+    (forall q, (q < Q)%nat -> 0 < w q) ->
+    (forall y, (forall q, (q < Q)%nat -> s y q = 0) -> forall i, (i < N)%nat -> y i = 0) ->
+    forall y, (forall i, (i < N)%nat -> mv N M y i = 0) -> forall i, (i < N)%nat -> y i = 0.
+  Proof.
+    intros Hw Hc y Hy. apply Hc. intros q Hq.
+    assert (E : sumn Q (fun q => w q * (s y q * s y q)) = 0).
+    { rewrite <- energy. rewrite (sumn_ext N _ (fun _ => 0)); [apply sumn_zero|].
+      intros i Hi. rewrite Hy by assumption. ring. }
+    assert (Z : w q * (s y q * s y q) = 0).
+    { apply (sumn_nonneg_zero Q (fun q => w q * (s y q * s y q))); [|exact E|exact Hq].
+      intros k Hk. replace 0 with (0 * (s y k * s y k)) by ring.
+      apply Qcmult_le_compat_r; [apply Qclt_le_weak, Hw, Hk | apply sq_nonneg]. }
+    destruct (Qcmult_integral _ _ Z) as [Z1|Z2].
+    - specialize (Hw q Hq). rewrite Z1 in Hw. exfalso. exact (Qclt_not_eq _ _ Hw eq_refl).
+    - destruct (Qcmult_integral _ _ Z2); assumption.
+  Qed.
+End L2proofs.
+
+(* Kronecker path of project_L2 (geo=None): (x)M_k^-1 applied to the load tensor
+   (x)C_k^T (x)D_k (x)C_k c of a function of the space returns c, when the 1D mass matrices
+   are the quadrature Gram matrices M_k = C_k^T D_k C_k and S_k M_k = I. *)
+Lemma l2_kron_reproduces_l shape Ss Cts Ds Cs c idx :
+  length Ss = length Cts -> length Cts = length Ds -> length Ds = length Cs ->
+  Forall2 is_id shape (mul_list Ss (mul_list Cts (mul_list Ds Cs))) ->
+  inrange shape idx -> (length Ss <= length idx)%nat ->
+  tprod_loop Ss (tprod_loop Cts (tprod_loop Ds (tprod Cs c))) idx = c idx.
+Proof.
+  intros H1 H2 H3 Hid Hr Hl.
+  assert (LD : length (mul_list Ds Cs) = length Ds)
+    by (unfold mul_list; rewrite map_length, combine_length; lia).
+  assert (LC : length (mul_list Cts (mul_list Ds Cs)) = length Cts)
+    by (unfold mul_list at 1; rewrite map_length, combine_length; lia).
+  rewrite tprod_loop_spec_l by assumption.
+  rewrite (tprod_ext_len Ss _ (tprod Cts (tprod Ds (tprod Cs c))) idx); [|assumption|].
+  - rewrite (tprod_ext_len Ss _ (tprod (mul_list Cts (mul_list Ds Cs)) c) idx); [|assumption|].
+    + rewrite tprod_compose_l by lia. apply (tprod_id_l shape); assumption.
+    + intros i Hi.
+      rewrite (tprod_ext_len Cts _ (tprod (mul_list Ds Cs) c) i) by
+        (try lia; intros j Hj; apply tprod_compose_l; lia).
+      apply tprod_compose_l. lia.
+  - intros i Hi. rewrite tprod_loop_spec_l by lia.
+    apply tprod_ext_len; [lia|]. intros j Hj. apply tprod_loop_spec_l. lia.
+Qed.
